@@ -400,6 +400,106 @@ Theorem C16_quantiles_scale_invariant :
 Proof. exact C16_C13_Link.quantiles_of_scale_invariant. Qed.
 Print Assumptions C16_quantiles_scale_invariant.
 
+(** C13_quantile_tie_independent, for this model.  The C13 theorem says that the value does not
+    depend on the order the argsort gives to equal values (every sorting permutation [index]).
+    [Results.quantile] has no argsort argument (it sorts by itself), so the theorem transfers in two
+    forms: (a) the C13 model run with ANY sorting permutation of the column returns the value of
+    [quantile]; (b) the value depends only on the multiset of (value, weight) rows: reordering the
+    sample (values and weights together) does not change it. *)
+Theorem C16_quantile_tie_independent :
+  forall (x w : list Qc), length w = length x -> Forall (fun v => 0 <= v) w -> 0 < sumq w ->
+    forall index alpha, C13_Quantile.sorting_perm index (map this x) -> 0 <= alpha -> alpha <= 1 ->
+    Quantile.wsq_idx index (map this x) (this alpha) (Some (map this w))
+    = option_map this (quantile x alpha (Some w)).
+Proof. exact C16_C13_Link.quantile_any_argsort. Qed.
+Print Assumptions C16_quantile_tie_independent.
+
+Theorem C16_quantile_permutation_invariant :
+  forall (x w x' w' : list Qc) (alpha : Qc),
+    length w = length x -> length w' = length x' -> Permutation (combine x w) (combine x' w') ->
+    Forall (fun v => 0 <= v) w -> 0 < sumq w -> 0 <= alpha -> alpha <= 1 ->
+    quantile x' alpha (Some w') = quantile x alpha (Some w).
+Proof. exact C16_C13_Link.quantile_permutation_invariant_c. Qed.
+Print Assumptions C16_quantile_permutation_invariant.
+
+(** C13_quantile_monotone, for this model ([weights=None]: unit weights, no hypothesis) *)
+Theorem C16_quantile_monotone :
+  forall (x : list Qc) (w : option (list Qc)) (a1 a2 q1 q2 : Qc),
+    match w with Some w => Forall (fun v => 0 <= v) w /\ 0 < sumq w | None => True end ->
+    match w with Some w => length w = length x | None => True end ->
+    0 <= a1 -> a1 <= a2 -> a2 <= 1 ->
+    quantile x a1 w = Some q1 -> quantile x a2 w = Some q2 -> q1 <= q2.
+Proof. exact C16_C13_Link.quantile_monotone_opt. Qed.
+Print Assumptions C16_quantile_monotone.
+
+(** the end points.  C13 states them inside its characterisation of the value ([qchar]), not as
+    theorems of their own:
+    alpha = 0: the smallest stored value - of ALL values, also those of weight zero, and whatever
+    the weights are (they are not read: [x[index[0]]]); no hypothesis;
+    alpha = 1: the largest value of POSITIVE weight (values of weight zero above it are skipped:
+    W(<= q) >= W and W(< q) < W). *)
+Theorem C16_quantile_endpoints :
+  (forall (x : list Qc) (w : option (list Qc)) (v : Qc),
+     quantile x 0 w = Some v -> In v x /\ forall y, In y x -> v <= y)
+  /\ (forall (x w : list Qc), length w = length x -> Forall (fun v => 0 <= v) w -> 0 < sumq w ->
+      forall v, quantile x 1 (Some w) = Some v ->
+        (forall y u, In (y, u) (combine x w) -> 0 < u -> y <= v)
+        /\ exists u, In (v, u) (combine x w) /\ 0 < u).
+Proof. split; [exact C16_C13_Link.quantile_zero_min | exact C16_C13_Link.quantile_one_max]. Qed.
+Print Assumptions C16_quantile_endpoints.
+
+(** the reported quantiles ([sample_quantiles]) are monotone in the level, parameter by parameter
+    (for alpha = 0 the weights are not read, so the length of the columns is a hypothesis there) *)
+Theorem C16_quantiles_monotone :
+  forall (s : dict) (w : option (list Qc)) (a1 a2 : Qc) (lo hi : list (string * Qc)),
+    match w with Some w => Forall (fun v => 0 <= v) w /\ 0 < sumq w | None => True end ->
+    0 <= a1 -> a1 <= a2 -> a2 <= 1 ->
+    (a1 = 0 -> match w with Some w => Forall (fun kv => length (snd kv) = length w) s | None => True end) ->
+    quantiles_of s w a1 = Some lo -> quantiles_of s w a2 = Some hi ->
+    length lo = length s /\ length hi = length s
+    /\ forall j k l k' u, nth_error lo j = Some (k, l) -> nth_error hi j = Some (k', u) -> k = k' /\ l <= u.
+Proof. exact C16_C13_Link.quantiles_of_monotone. Qed.
+Print Assumptions C16_quantiles_monotone.
+
+(** [sample_means_and_95CIs]: Num/Results.v has no function of its own for it; its interval ends are
+    the entries of [sample_quantiles(alpha=0.025)] and [sample_quantiles(alpha=0.975)] (recorded as
+    two [ob_quant] queries).  With non-negative weights of positive sum (or none) the lower end of
+    every parameter's interval is at most the upper end. *)
+Theorem C16_ci_ordered :
+  forall (s : dict) (w : option (list Qc)) (lo hi : list (string * Qc)),
+    match w with Some w => Forall (fun v => 0 <= v) w /\ 0 < sumq w | None => True end ->
+    quantiles_of s w (Q2Qc (25 # 1000)) = Some lo -> quantiles_of s w (Q2Qc (975 # 1000)) = Some hi ->
+    length lo = length s /\ length hi = length s
+    /\ forall j k l k' u, nth_error lo j = Some (k, l) -> nth_error hi j = Some (k', u) -> k = k' /\ l <= u.
+Proof. exact C16_C13_Link.ci_ordered. Qed.
+Print Assumptions C16_ci_ordered.
+
+(** reordering the sample (one permutation applied to every column and to the weights) does not
+    change the reported quantiles *)
+Theorem C16_quantiles_permutation_invariant :
+  forall (s s' : dict) (w w' : list Qc) (alpha : Qc),
+    Forall2 (fun kv kv' => fst kv = fst kv' /\ length (snd kv) = length w /\ length (snd kv') = length w'
+                           /\ Permutation (combine (snd kv) w) (combine (snd kv') w')) s s' ->
+    Forall (fun v => 0 <= v) w -> 0 < sumq w -> 0 <= alpha -> alpha <= 1 ->
+    quantiles_of s' (Some w') alpha = quantiles_of s (Some w) alpha.
+Proof. exact C16_C13_Link.quantiles_of_permutation_invariant. Qed.
+Print Assumptions C16_quantiles_permutation_invariant.
+
+(** non-vacuity: a column with a tie and a zero weight on its largest value, in two orders; the end
+    points; the interval ends *)
+Example C16_ex_quantile_order :
+  let x := [q 3; q 1; q 2; q 2; q 9] in let w := [q 1; q 1; q 0; q 2; q 0] in
+  let x' := rev x in let w' := rev w in
+  Permutation (combine x w) (combine x' w')
+  /\ map (fun a => option_map this (quantile x (Q2Qc a) (Some w))) [0; 25 # 1000; 1 # 2; 975 # 1000; 1]%Q
+     = [Some 1; Some 1; Some 2; Some 3; Some 3]%Q
+  /\ map (fun a => option_map this (quantile x' (Q2Qc a) (Some w'))) [0; 25 # 1000; 1 # 2; 975 # 1000; 1]%Q
+     = [Some 1; Some 1; Some 2; Some 3; Some 3]%Q.
+Proof.
+  intros x w x' w'. split; [|vm_compute; split; reflexivity].
+  change (Permutation (combine x w) (rev (combine x w))). apply Permutation_rev.
+Qed.
+
 (** non-vacuity: one weighted column, both models, the inequalities at the value returned *)
 Example C16_ex_quantile_link :
   let x := [q 3; q 1; q 2] in let w := [q 1; q 2; q 1] in let a := Q2Qc (3 # 5) in
